@@ -100,6 +100,7 @@ func (p *Program) verifyUnitOnce(u *Unit, splitVal *big.Int, sitePrefix string) 
 	res.Vacuity = append(res.Vacuity, &Obligation{Unit: u.Name, Kind: "vacuity", Label: "pre", Assumes: append([]*Term(nil), st.pc...), ExpectSat: true, Src: "precondition is satisfiable"})
 	x.entryPC = len(st.pc)
 	x.applyLemmas(nil, st, env, "entry")
+	x.applyUses(st, env)
 	var outs []*Outcome
 	func() {
 		defer func() {
@@ -657,4 +658,54 @@ func (p *Program) lemmaObligations() []*Obligation {
 		out = append(out, &Obligation{Unit: "lemma:" + n, Kind: "lemma", Label: "proof", Assumes: st.pc, Goal: And(goals...), Inputs: x.inputs, Src: "lemma " + n})
 	}
 	return out
+}
+
+// applyUses assumes the universal closure of a declared axiom / proved lemma (sorts taken from sample arguments).
+func (x *Exec) applyUses(st *State, env *Env) {
+	c := x.unit.Contract
+	for _, lu := range c.Uses {
+		ld := x.prog.lemmas[lu.Name]
+		if ld == nil || len(ld.Params) != len(lu.Args) {
+			x.errorf("%s: uses: unknown lemma or arity mismatch: %s", x.unit.Name, lu.Name)
+			continue
+		}
+		sub := &Env{x: x, vars: map[string]Val{}, cur: env.cur, old: env.old, st: st, oldMem: env.oldMem, pkg: env.pkg}
+		var bvs []*Term
+		ok := true
+		for i, prm := range ld.Params {
+			sample, err := x.evalTerm(env, lu.Args[i])
+			if err != nil {
+				x.errorf("%s: uses %s: sample argument %d: %v", x.unit.Name, lu.Name, i, err)
+				ok = false
+				break
+			}
+			bv := NewBound(prm.Name, sample.Sort)
+			bvs = append(bvs, bv)
+			sub.vars[prm.Name] = bv
+		}
+		if !ok {
+			continue
+		}
+		var pre, post []*Term
+		for _, r := range ld.Requires {
+			if t, err := x.evalBool(sub, r.Expr); err == nil {
+				pre = append(pre, t)
+			} else {
+				x.errorf("uses %s: %v", lu.Name, err)
+			}
+		}
+		for _, e := range ld.Ensures {
+			if t, err := x.evalBool(sub, e.Expr); err == nil {
+				post = append(post, t)
+			} else {
+				x.errorf("uses %s: %v", lu.Name, err)
+			}
+		}
+		body := Implies(And(pre...), And(post...))
+		for i := len(bvs) - 1; i >= 0; i-- {
+			body = Forall(bvs[i], body)
+		}
+		x.assumed["lemma (universal closure) "+lu.Name] = true
+		st.assume(body)
+	}
 }
